@@ -132,8 +132,29 @@ let run_tapchk cid t =
   let blk = List.map (List.map (fun g -> (10 * g, 10 * g + 1))) ids in
   pr "FBI" (fun q -> List.concat (List.map (fun (a, b) -> [a; b]) (tap_forward (-7, -7) tw blk (nat_of_int q))))
 
+(* cid tracechk P fc[P+1] K {{n cols}xP}xK  then per rank: nev (B | S dst tag | R src tag)*  *)
+let run_tracechk cid t =
+  let p = next_int t in
+  let fc = nats (next_ints t (p + 1)) in
+  let k = next_int t in
+  let fams = take k (fun () -> take p (fun () -> nats (read_list t))) in
+  let prog = List.concat (List.map (fun colmaps ->
+      let dests r = List.map fst (group_by_owner fc (List.nth colmaps (int_of_nat r))) in
+      [Barrier; Phase (nat_of_int 12345, dests)]) fams) in
+  let evs = take p (fun () ->
+      let n = next_int t in
+      take n (fun () -> match next t with
+          | "B" -> EvBarrier
+          | "S" -> let d = next_nat t in let tg = next_nat t in EvSend (d, tg)
+          | "R" -> let s = next_nat t in let tg = next_nat t in EvRecvAny (s, tg)
+          | x -> failwith ("event " ^ x))) in
+  Printf.printf "%s TRACE phases_ok %s in_range %s ranks %s\n" cid (b2s (phases_ok prog))
+    (b2s (dests_in_rangeb (nat_of_int p) prog))
+    (String.concat " " (List.mapi (fun r e -> b2s (trace_ok (nat_of_int p) prog (nat_of_int r) e)) evs))
+
 let run_case cid t =
   match next t with
+  | "tracechk" -> run_tracechk cid t
   | "commchk" -> run_commchk cid t
   | "tapchk" -> run_tapchk cid t
   | "pspmv" -> run_pspmv cid t
